@@ -15,6 +15,8 @@ NEEDS_SIMGRID = True
 LETTERS = "abcdef"
 KINDS = (("F", "floyd"), ("D", "dijkstra"), ("C", "dijkstracache"), ("R", "dijkstracache"), ("U", "full"))
 GRAPHS_PER_ENGINE = 150
+BATCH_CPU = 60      # CPU seconds for an Engine with GRAPHS_PER_ENGINE graphs (normally < 2)
+SOLO_CPU = 5        # CPU seconds for one zone of <= 6 hosts (normally a few ms)
 
 
 # ------------------------------------------------------------------------------------------------ pair-state alphabets
@@ -195,11 +197,11 @@ def zone_lines(g, z, kind):
     return lines
 
 
-def case_text(graphs):
-    """graphs: list of (gid, g). One Engine, five zones per graph."""
+def case_text(graphs, kinds=KINDS):
+    """graphs: list of (gid, g). One Engine, five zones per graph (or only the given kinds)."""
     lines, queries = [], []
     for gid, g in graphs:
-        for letter, kind in KINDS:
+        for letter, kind in kinds:
             z = "%s%s" % (gid, letter)
             lines += zone_lines(g, z, kind)
             if letter == "C":
@@ -243,8 +245,9 @@ def nontrivial(n, w, dist):
     return False
 
 
-def judge_graph(gid, g, res):
-    """-> (route answers judged, nontrivial?, problem or None); problem = (rule, zone kind, pair, detail)."""
+def judge_graph(gid, g, results):
+    """results: one CaseResult for all five zones, or {zone letter: CaseResult}.
+    -> (route answers judged, nontrivial?, problem or None); problem = (rule, zone kind, pair, detail)."""
     n = g["n"]
     w = {}
     for m, a, b, x in g["decl"]:
@@ -256,6 +259,9 @@ def judge_graph(gid, g, res):
     counts = {}
     for letter, kind in KINDS:
         z = "%s%s" % (gid, letter)
+        res = results[letter] if isinstance(results, dict) else results
+        if res.crash or res.builderr or not res.complete:
+            return (judged,) + dead(res, kind)[1:]
         arcs = declared(g, z)
         first = {}              # first link of a declared one-hop route -> the arcs that start with it
         for arc, names in arcs.items():
@@ -264,27 +270,28 @@ def judge_graph(gid, g, res):
         for m, a, b, x in g["decl"]:
             for i in range(x):
                 lat["%s%s%s%d" % (z, LETTERS[a], LETTERS[b], i)] = link_lat(a, b, i)
-        for s in range(n):
-            for d in range(n):
-                if s == d:
-                    continue
-                key = ("%s%s" % (z, LETTERS[s]), "%s%s" % (z, LETTERS[d]))
-                pair = "%s->%s" % (LETTERS[s], LETTERS[d])
-                if letter == "U":
-                    if (s, d) not in arcs:
+        host_index = {"%s%s" % (z, LETTERS[v]): v for v in range(n)}
+        for k in range(2 if letter == "C" else 1):
+            ans = res.answers(z, k)
+            if ans is None or len(ans[1]) != n * n or sorted(ans[0]) != sorted(host_index):
+                return judged, False, ("no-answer", kind, "-", "query %d of the zone not answered" % k)
+            names, lines = ans
+            order = [host_index[x] for x in names]
+            pos = -1
+            for s in order:
+                for d in order:
+                    pos += 1
+                    if s == d:
+                        continue
+                    if letter == "U" and (s, d) not in arcs:
                         continue            # Full: only declared pairs are specified
-                nq = 2 if letter == "C" else 1
-                for k in range(nq):
-                    got = res.route(key, k)
-                    err = res.errors.get(key)
+                    pair = "%s->%s" % (LETTERS[s], LETTERS[d])
+                    rlat, links = res.decode(lines[pos])
                     reach = dist[s][d] != float("inf")
-                    if got is None:
-                        if err and not reach:
+                    if rlat is None:
+                        if not reach:
                             continue        # no path exists: refusing is fine
-                        if err:
-                            return judged, False, ("exception", kind, pair, err[0][:120])
-                        return judged, False, ("no-answer", kind, pair, "query %d not answered" % k)
-                    rlat, links = got
+                        return judged, False, ("exception", kind, pair, links[:120])
                     judged += 1
                     if not reach:
                         if links:
@@ -322,41 +329,43 @@ def canon(text, gid):
 
 
 def run_graphs(exe, graphs, workdir, tag, per_engine=GRAPHS_PER_ENGINE):
-    """graphs: list of g. -> [(g, judged, nontrivial, problem)]; an Engine that died is re-run one graph at a time."""
+    """graphs: list of g. -> [(g, judged, nontrivial, problem)]; an Engine that died (crash, or killed after BATCH_CPU seconds
+    of CPU) is re-run one zone per Engine with SOLO_CPU seconds each, so that the zone kind that dies is known."""
     named = [("G%d" % i, g) for i, g in enumerate(graphs)]
     batches = [named[i:i + per_engine] for i in range(0, len(named), per_engine)]
-    res = rc.run_cases(exe, [("b%d" % i, case_text(b)) for i, b in enumerate(batches)], workdir, tag)
     out, redo = [], []
-    for i, b in enumerate(batches):
-        r = res["b%d" % i]
-        if r.crash or r.builderr or not r.complete:
-            if len(b) == 1:
-                out.append((b[0][1],) + dead(r))
-            else:
-                redo += b
-        else:
-            for gid, g in b:
-                j, nt, p = judge_graph(gid, g, r)
-                out.append((g, j, nt, (p[0], p[1], p[2], canon(p[3], gid)) if p else None))
-    if redo:
-        res = rc.run_cases(exe, [(gid, case_text([(gid, g)])) for gid, g in redo], workdir, tag + "-solo")
-        for gid, g in redo:
-            r = res[gid]
+    if per_engine > 1:
+        res = rc.run_cases(exe, [("b%d" % i, case_text(b)) for i, b in enumerate(batches)], workdir, tag, case_cpu=BATCH_CPU)
+        for i, b in enumerate(batches):
+            r = res["b%d" % i]
             if r.crash or r.builderr or not r.complete:
-                out.append((g,) + dead(r))
+                redo += b
             else:
-                j, nt, p = judge_graph(gid, g, r)
-                out.append((g, j, nt, (p[0], p[1], p[2], canon(p[3], gid)) if p else None))
+                for gid, g in b:
+                    j, nt, p = judge_graph(gid, g, r)
+                    out.append((g, j, nt, (p[0], p[1], p[2], canon(p[3], gid)) if p else None))
+    else:
+        redo = named
+    if redo:
+        cases = [("%s.%s" % (gid, letter), case_text([(gid, g)], [(letter, kind)])) for gid, g in redo for letter, kind in KINDS]
+        res = rc.run_cases(exe, cases, workdir, tag + "-solo", case_cpu=SOLO_CPU)
+        for gid, g in redo:
+            j, nt, p = judge_graph(gid, g, {letter: res["%s.%s" % (gid, letter)] for letter, _ in KINDS})
+            out.append((g, j, nt, (p[0], p[1], p[2], canon(p[3], gid)) if p else None))
     return out
 
 
-def dead(r):
+def dead(r, kind="-"):
     import re
     if r.crash:
-        return 0, False, ("crash", "-", "-", re.sub(r"\s+", " ", re.sub(r"sig=(\d+).*?(?=[A-Z])", r"sig=\1 ", r.crash))[:120])
+        m = re.search(r"sig=(\d+)", r.crash)
+        sig = int(m.group(1)) if m else 0
+        if sig in (14, 24, 9) or (sig == 6 and "bad_alloc" in r.crash):
+            return 0, False, ("hang", kind, "-", "route_to does not return (killed after %d s of CPU or 3 GB of memory)" % SOLO_CPU)
+        return 0, False, ("crash", kind, "-", re.sub(r"\s+", " ", r.crash)[:120])
     if r.builderr:
-        return 0, False, ("build-error", "-", "-", r.builderr[:120])
-    return 0, False, ("no-answer", "-", "-", "case output incomplete")
+        return 0, False, ("build-error", kind, "-", r.builderr[:120])
+    return 0, False, ("no-answer", kind, "-", "case output incomplete")
 
 
 # ------------------------------------------------------------------------------------------------ bounds
@@ -364,13 +373,19 @@ def bounds_for(ctx):
     """-> [(name, kind, payload)]: kind 'space' -> (n, states, want, shard depth) ; kind 'list' -> graphs"""
     full = alphabet((1, 2, 3))
     a13 = alphabet((1, 3))
+    a13q = [("-", 0, 0), ("s", 1, 1), ("s", 3, 3), ("f", 1, 0), ("b", 0, 1), ("f", 3, 0), ("b", 0, 3), ("2", 1, 3), ("2", 3, 1)]
     b = [("n=2, one-hop routes of 1..3 links, symmetric / one-way / both ways declared one by one; strongly connected", "space", (2, full, "strong", 1)),
          ("n=3, same alphabet (19 states per pair), all strongly connected digraphs up to isomorphism", "space", (3, full, "strong", 1)),
-         ("n=3, same alphabet, weakly but not strongly connected digraphs (reachable pairs judged)", "space", (3, full, "weak-only", 1)),
-         ("n=4, routes of 1 or 3 links (11 states per pair), all strongly connected digraphs up to isomorphism", "space", (4, a13, "strong", 2))]
+         ("n=3, routes of 1 or 3 links (symmetric 1, one-way 1 or 3), weakly but not strongly connected digraphs (reachable pairs "
+          "judged)", "space", (3, [("-", 0, 0), ("s", 1, 1), ("f", 1, 0), ("b", 0, 1), ("f", 3, 0), ("b", 0, 3)], "weak-only", 1)),
+         ("n=4, routes of 1 or 3 links: symmetric, one-way, or both ways with different lengths (9 states per pair), all strongly "
+          "connected digraphs up to isomorphism", "space", (4, a13q, "strong", 2))]
     if not ctx.quick:
+        b.append(("n=4, routes of 1 or 3 links, all 11 states per pair, all strongly connected digraphs up to isomorphism", "space",
+                  (4, a13, "strong", 2)))
         a5 = [("-", 0, 0), ("s", 1, 1), ("s", 3, 3), ("f", 1, 0), ("b", 0, 1)]
-        b += [("n=4, routes of 1 or 3 links, weakly but not strongly connected digraphs", "space", (4, a13, "weak-only", 2)),
+        b += [("n=3, all 19 states per pair, weakly but not strongly connected digraphs (reachable pairs judged)", "space",
+               (3, full, "weak-only", 1)),
               ("n=6, the 6 trees and the 6-cycle with symmetric routes of 1..3 links, the directed 6-cycle", "list", fixed_family_n6()),
               ("n=5, symmetric routes of 1 or 3 links or one-way routes of 1 link (5 states per pair), strongly connected, up to isomorphism",
                "space", (5, a5, "strong", 3)),
@@ -380,17 +395,20 @@ def bounds_for(ctx):
 
 def _worker(arg):
     exe, work, tag, kind, payload = arg
+    per_engine = GRAPHS_PER_ENGINE
     if kind == "space":
         n, states, want, prefixes = payload
         sp = Space(n, states, want)
         graphs = [graph_of(sp, code) for pf in prefixes for code in sp.enumerate(pf)]
+        if want != "strong":
+            per_engine = 1      # a zone that does not return must not take 150 graphs with it
     else:
         graphs = payload
     evals = judged = nontriv = 0
     bad, sample = [], None
     CH = 3000
     for i in range(0, len(graphs), CH):
-        for g, j, nt, p in run_graphs(exe, graphs[i:i + CH], work, "%s-%d" % (tag, i)):
+        for g, j, nt, p in run_graphs(exe, graphs[i:i + CH], work, "%s-%d" % (tag, i), per_engine):
             evals += 1
             judged += j
             nontriv += 1 if nt else 0
@@ -422,9 +440,11 @@ def run(ctx):
     evals = judged = nontriv = 0
     bad, samples, done, skipped = [], [], [], []
     exhaustive = True
+    # the budget counts exploration time: Ctx's clock started before bin/check (re)built libsimgrid
+    deadline = common.Deadline(float(os.environ.get("VERIF_BUDGET_S") or (150 if ctx.quick else 1200)))
     pool = cf.ProcessPoolExecutor(max_workers=common.NCPU)
     for name, kind, payload in bounds_for(ctx):
-        if ctx.deadline.over() or (done and ctx.deadline.left() < 15):
+        if done and (deadline.over() or deadline.left() < 15):      # the first bound always runs
             exhaustive = False
             skipped.append(name)
             continue
@@ -469,7 +489,7 @@ def run(ctx):
         return signature(g, r[3]) if r[3] else None
     violations = rc.confirm(ctx, violations, rerun)
     shutil.rmtree(work, ignore_errors=True)
-    if nontriv < 2:
+    if nontriv < 2 and not violations:
         common.log("C25: vacuous run (%d non-trivial graphs)" % nontriv)
         sys.exit(2)
     cov = {"evaluations": evals, "distinct_nontrivial": nontriv,
